@@ -181,6 +181,31 @@ def _zip(repo, rep):
     rep.check(ok, "R18.1", ua.qualname, "the namespaced mapping gets exactly "
               "one entry per static attribute, in the same order",
               construct="origin-aligned", where=L.where(ua))
+    # ... "one entry per attribute" also needs the entries not to collapse:
+    # the partner of the attribute *list* is a mapping keyed by (namespace,
+    # local name); two attributes with the same expanded name (two prefixes
+    # bound to one URI, or an attribute written twice) share a key, the
+    # mapping is then shorter than the list and the zip pairs every later
+    # attribute with the wrong partner
+    created = [n for n in ast.walk(ua.node) if isinstance(n, ast.Assign)
+               and src(n.targets[0]) == "namespaced"]
+    is_map = bool(created) and isinstance(created[0].value, (ast.Call,
+                                                              ast.Dict)) \
+        and src(created[0].value).split("(")[0] in ("OrderedDict", "dict",
+                                                     "{}")
+    keys = [n.targets[0].slice for n in ast.walk(ua.node)
+            if isinstance(n, ast.Assign) and isinstance(
+                n.targets[0], ast.Subscript) and
+            src(n.targets[0].value) == "namespaced"]
+    positional = all(any(isinstance(x, ast.Name) and x.id == "index"
+                         for x in ast.walk(k)) for k in keys) if keys else False
+    rep.check((not is_map) or positional, "R18.1", ua.qualname, "the "
+              "collection that is zipped with the attribute list cannot "
+              "lose entries (a list, or a mapping whose key contains the "
+              "attribute's position)", construct="zip-partner-collapses",
+              where=L.where(ua),
+              detail="namespaced[ns, name] = value: attributes with equal "
+                     "expanded names share one entry")
     # every call between the origin and prepare_attributes that receives one
     # of the two collections
     n_checked = 0
